@@ -15,6 +15,8 @@ CLAIMED["C01"] = ("proof", "Theorems for every NumOps instance, i.e. bit-exact f
 CLAIMED["C02"] = ("proof", "Theorems for every NumOps instance (Properties/C02.v): a one-flight check-in returns EGROUNDED iff not mid-trip, balance not >= 0 and no kept promise whose refreshed clearance is reached (also at the engine API on the stored or fresh record); mid-trip / never flown / zero balance / due kept promise are never refused; errors store nothing; an in-order multi-flight submission is refused only at its first flight. The unconditional multi-flight statement is refuted by a machine-checked witness (known finding). Correspondence: the result code of every check-in in generated engine histories; Go monitor recomputes 'grounded' from the record read just before each call.", "5 C02", "Coq proof (decision lemma, induction over the submitted flights) + vm_compute correspondence")
 CLAIMED["C03"] = ("proof", "Theorems for every NumOps instance (Properties/C03.v): in every reachable engine state with a permitted thread setting, a daily update stores for every traveller exactly its own updated record, the share is (DailyTotal + cycled correction iff the option is on)/max(MinGrounded, previously credited) or 0, each traveller who is not mid-trip once the trip rules are applied and has a negative balance gets exactly one share and nobody else's balance changes, a trip closed in the same update by keeping a promise is not credited, and the reported and carried grounded count is the number credited. Correspondence under the C03 projection (share bits, grounded count, all balances after every update) on populations of 2-40 travellers over several days; Go monitor recomputes formula and credit set.", "5 C03", "Coq proof (per-traveller decision lemma + partition/permutation argument over the worker slices, induction over operations) + vm_compute correspondence")
 CLAIMED["C04"] = ("proof", "Theorems (Properties/C04.v): for all 256 thread bytes, the accepted ones cut worker ranges that cover each of the 16 shards exactly once with no more workers than channel slots (finite sweep by vm_compute lifted with forallb_forall); the workers' slices are a permutation of the snapshot for any key distribution; stored records, carried state, share and integer totals are functions of state and time alone; any interleaving of the write lists and any arrival order of statistics give the same table and integer totals; the float distance total is order-independent only under ring laws (known finding on the real code). Correspondence: the same database image updated from identical copies at Threads=0,1,2,4,8,16 with crowded and empty shards, compared with each other and with the model. PARTIAL: freedom from Go data races cannot be exhibited by a Gallina model; the proved footprint argument (workers share only immutable inputs, write distinct keys) is supported by 'go test -race' over the same driver in the thorough tier.", "5 C04", "Coq proof (finite sweep + permutation/partition lemmas) + vm_compute correspondence across six thread settings")
+CLAIMED["C09"] = ("proof", "Theorems for every NumOps instance and EVERY predictor (an arbitrary record of functions; Properties/C09.v): an accepted proposal against a consistent book yields a book with ten slots, ordered by trip start, non-overlapping, every clearance no later than the next trip's start, stack indices within 0..max; all previously made promises keep trip dates and distances, only slot 10 may be dropped and only if its trip has ended; chains of brought-forward promises (ghost flag) never outgrow the stack index, hence the maximum; lifted to every sequence of proposals by induction. The model (actual bisection, insertion, restack cascade) is compared with the real Promises.propose/make on scripted predictors (offset, failing, rate-based, failing backfill, changing versions): result codes and a hash of all ten slots and all fields; Go monitor states the invariant on every accepted proposal.", "5 C09", "Coq proof (restack loop invariant with exception set, chain lemma, induction over proposals) + vm_compute correspondence")
+CLAIMED["C10"] = ("proof", "Theorems (Properties/C10.v): the refusal table of Propose (promises disabled, no flights, start in the past, non-positive distance, overlap with any promised trip - using the C09 invariant -, no room, beyond the horizon), Make applies iff the predictor version equals the version at issue and then installs exactly the proposed promises leaving the rest of the record alone, a failed Make changes nothing, and the version moves exactly when the stored fit moves (both predictors) and never backwards. Purity of proposing is the type of the model function; it is tied to the code by digesting every table and the administrator state before and after every real Propose (monitor) and by the correspondence (C10 projection: all Propose/Make results, proposal hashes, books, administrator state).", "5 C10", "Coq proof (decision lemmas, version lemmas) + vm_compute correspondence + before/after digests of the real store")
 PENDING = {}
 props = [json.loads(l) for l in open(os.path.join(V, "properties.jsonl"))]
 checks, na = [], []
